@@ -27,6 +27,9 @@ void load(const char *filename,
   // Load the binary file.
   std::streampos fileSize;
   std::ifstream file(filename, std::ios::binary);
+  if (!file) {
+    throw std::runtime_error(std::string("could not open file ")+filename);
+  }
 
   // Get length of file.
   file.seekg(0, std::ios::end);
@@ -36,20 +39,22 @@ void load(const char *filename,
   // Check the file length matches.
   unsigned remainingFileSize = static_cast<unsigned>(fileSize) - 4;
   remainingFileSize = (remainingFileSize + 3U) & ~3U; // Round up to multiple of 4.
-  unsigned programSize;
+  unsigned programSize = 0;
   file.read(reinterpret_cast<char*>(&programSize), 4);
+  if (!file) {
+    throw std::runtime_error("binary has no header");
+  }
   programSize <<= 2;
+  if (programSize > hex::MAX_MEMORY_SIZE_WORDS * sizeof(uint32_t)) {
+    throw std::runtime_error("program is larger than the memory");
+  }
   if (programSize != remainingFileSize) {
     std::cerr << boost::format("Warning: mismatching program size %d != %d\n")
                    % programSize % remainingFileSize;
   }
 
-  // Read the file contents.
-  std::vector<uint32_t> buffer(remainingFileSize);
-  file.read(reinterpret_cast<char*>(buffer.data()), remainingFileSize);
-
-  // Write program to DUT memory.
-  std::memcpy(top->hex->u_memory->memory_q.data(), buffer.data(), buffer.size());
+  // Read the program (not the debug information that may follow it) into DUT memory.
+  file.read(reinterpret_cast<char*>(top->hex->u_memory->memory_q.data()), programSize);
 
   std::cout << "Wrote " << programSize << " bytes to memory\n";
 }
